@@ -3,6 +3,42 @@ import common
 from checks import ikeprop, c01matrix
 
 
+def incomparable_policies(v):
+    """Policies of the two peers that are neither equal nor nested (one side restricts the port, the other the network): the responder answers with a MIXED
+    pair - the requester's policy-wide selector on one side (protocol any), the selector of the packet on the other (the packet's protocol).  Both ends must
+    still install the same thing: mirror images, with the protocol that the pair denotes."""
+    import session
+    import world as wd
+    from keysched import OracleError
+    n = 0
+    cases = [
+        (dict(my_subnet='10.0.0.0/16', peer_subnet='10.1.0.0/16', peer_port=80, ip_proto='any', mode='tunnel'),
+         dict(my_subnet='10.1.0.0/24', peer_subnet='10.0.0.0/16', ip_proto='any', mode='tunnel'), dict(sel_saddr='10.0.0.7', sel_daddr='10.1.0.5', sport=4444, dport=80, proto=6)),
+        (dict(my_subnet='10.0.0.0/16', peer_subnet='10.1.0.0/16', my_port=53, ip_proto='any', mode='tunnel'),
+         dict(my_subnet='10.1.0.0/16', peer_subnet='10.0.0.0/24', ip_proto='any', mode='tunnel'), dict(sel_saddr='10.0.0.9', sel_daddr='10.1.2.3', sport=53, dport=40000, proto=17)),
+    ]
+    for a_opts, b_opts, acq in cases:
+        for starter in ('acquire', 'acquire+second'):
+            w = wd.World(seed=common.SEED, opts_by_ep={'A': a_opts, 'B': b_opts})
+            try:
+                s = session.Session(w)
+                kinds = s.acquire('A', **acq)
+                if starter == 'acquire+second':
+                    kinds += s.acquire('A', **acq)
+                s.judge()
+                n += 1
+                if not w.kernel['A'].sad or not w.kernel['B'].sad:
+                    v.violation(f'incomparable policies: nothing was installed ({kinds})', {'A': a_opts, 'B': b_opts}, signature={'component': 'policies:nothing'})
+            except OracleError as ex:
+                v.violation(f'incomparable policies (the answer is a mixed selector pair): {ex}', {'A': a_opts, 'B': b_opts, 'acquire': acq},
+                            signature={'component': 'policies:' + ex.kind})
+            except wd.Escape as ex:
+                v.violation(f'incomparable policies: {ex}', {}, signature={'component': 'policies:escape'})
+            finally:
+                w.close()
+    v.coverage['incomparable_policy_sessions'] = n
+
+
 def run(tier, replay=None):
     v = common.Verdict('C01', tier, 'model_checking')
     if replay:
@@ -10,4 +46,5 @@ def run(tier, replay=None):
     scen = ['estab_rekey_ke', 'estab_pfs', 'estab_pfs_same'] if tier == 'quick' else ['estab_loss', 'estab_rekey_ke', 'estab_pfs', 'estab_pfs_same', 'init_ke', 'init_cookie', 'init3']
     ikeprop.run(v, scen, limit=2500 if tier == 'quick' else None)
     c01matrix.run(v, tier)
+    incomparable_policies(v)
     return v.finish()
